@@ -854,6 +854,28 @@ def batteryHtlc (p : HtlcParams) : List String :=
       (if isPanic r1 then ["htlt_in"] else []) ++ (if isPanic r2 then ["htlt_in2"] else []) ++
       (if isPanic r3 then ["htlt_claim"] else []) ++ (if isPanic r4 then ["htlt_out"] else [])
 
+/-- the supplies of the first asset when the stored set takes over in the carry-over battery: built under
+    generous limits — an incoming 5000 claimed, incoming 3000 + 2000 open, outgoing 1500 + 1000 open -/
+def carrySupply : Supply := { incoming := 5000, outgoing := 2500, current := 5000, timeLimitedCurrent := 0 }
+
+/-- htlc, carry-over part: the stored set meets transfers opened BEFORE it was stored — claim of the open
+    incoming 3000 (`IncrementCurrentAssetSupply` under the new limits), claim of the open outgoing 1500
+    (decrements only: no parameter is read), then a new incoming 2500, a new incoming 7 and a new outgoing 1200 -/
+def batteryHtlcCarry (p : HtlcParams) : List String :=
+  match p with
+  | [] => []
+  | a :: _ =>
+    let r1 := htltClaimIncoming a carrySupply 3000
+    let s1 := supplyAfter r1 carrySupply
+    let s2 : Supply := { s1 with outgoing := s1.outgoing - 1500, current := s1.current - 1500 }
+    let r3 := htltIncoming a s2 2500
+    let s3 := supplyAfter r3 s2
+    let r4 := htltIncoming a s3 7
+    let s4 := supplyAfter r4 s3
+    let r5 := htltOutgoing a s4 1200 a.maxBlockLock
+    (if isPanic r1 then ["carry_claim_in"] else []) ++ (if isPanic r3 then ["carry_new_in"] else []) ++
+    (if isPanic r4 then ["carry_new_in_small"] else []) ++ (if isPanic r5 then ["carry_new_out"] else [])
+
 /-- service: bind (min deposit for price 10), respond (fee 10 taxed), expiry (deposit 10^20 slashed) -/
 def batteryService (p : ServiceParams) : List String :=
   (if isPanic (minDepositBase p 10) then ["bind"] else []) ++
